@@ -24,7 +24,10 @@ def _violations(mod, sources) -> List[tuple]:
     ctx = engine.Context(prog)
     rep = engine.Reporter(mod.PROP)
     mod.run(ctx, rep)
-    return [(o.rule, o.func, o.key, o.loc, o.msg) for o in rep.obligations if not o.ok], len(rep.obligations)
+    viol = [(o.rule, o.func, o.key, o.loc, o.msg) for o in rep.obligations if not o.ok]
+    if rep.errors and not viol:
+        raise AnalysisError("; ".join(rep.errors))
+    return viol, len(rep.obligations)
 
 
 def _one(args):
@@ -125,8 +128,136 @@ def run(mod, prog: Program, rep: engine.Reporter, tier: str, seed: int) -> Dict:
             "rows": rows,
         }
     }
+    if tier == "thorough":
+        try:
+            out["mutation_adequacy"] = mutation_adequacy(mod, prog, rep, seed)
+            rep.analysed["mutation_adequacy"] = f"{out['mutation_adequacy']['killed']}/{out['mutation_adequacy']['mutants']}"
+        except Exception as e:  # adequacy is informational, never a verdict
+            out["mutation_adequacy"] = {"error": f"{type(e).__name__}: {e}"}
     rep.analysed["selftest:bad_detected"] = f"{killed}/{n_bad}"
     rep.analysed["selftest:benign_stable"] = f"{stable}/{n_benign}"
     if failures:
         raise AnalysisError("; ".join(failures))
     return out
+
+
+# ---------------------------------------------------------------------------
+# Generic live-tree mutation adequacy (thorough tier; informational only)
+# ---------------------------------------------------------------------------
+import ast as _ast
+import random as _random
+
+_CMP_SWAP = {_ast.Lt: _ast.LtE, _ast.LtE: _ast.Lt, _ast.Gt: _ast.GtE, _ast.GtE: _ast.Gt, _ast.Eq: _ast.NotEq, _ast.NotEq: _ast.Eq}
+
+
+def _generic_mutants(prog: Program, funcs):
+    """Yield (name, relpath, new_source) for generic AST mutants of the given
+    functions: delete a simple statement, negate an if-test, swap a comparison
+    operator, perturb a numeric constant, swap +/-."""
+    for fi in funcs:
+        rel = fi.file
+        src = prog.sources[rel]
+        tree0 = _ast.parse(src)
+        # enumerate mutation points by index in a deterministic walk of the function
+        from .variants import find_def
+
+        fn0 = find_def(tree0, fi.short.replace("<", "").replace(">", ""))
+        if fn0 is None:
+            continue
+        nodes = [n for n in _ast.walk(fn0)]
+        for i, n in enumerate(nodes):
+            kinds = []
+            if isinstance(n, (_ast.Assign, _ast.AugAssign, _ast.Expr)) and not (isinstance(n, _ast.Expr) and isinstance(n.value, _ast.Constant)):
+                kinds.append("delete")
+            if isinstance(n, _ast.If):
+                kinds.append("negate")
+            if isinstance(n, _ast.Compare) and len(n.ops) == 1 and type(n.ops[0]) in _CMP_SWAP:
+                kinds.append("cmp")
+            if isinstance(n, _ast.Constant) and isinstance(n.value, (int, float)) and not isinstance(n.value, bool):
+                kinds.append("const")
+            if isinstance(n, _ast.BinOp) and isinstance(n.op, (_ast.Add, _ast.Sub)):
+                kinds.append("addsub")
+            for k in kinds:
+                yield (f"{fi.short}:{k}@{getattr(n, 'lineno', 0)}:{i}", rel, fi.short, i, k)
+
+
+def _apply_generic(src: str, defpath: str, idx: int, kind: str):
+    from .variants import find_def
+
+    tree = _ast.parse(src)
+    fn = find_def(tree, defpath.replace("<", "").replace(">", ""))
+    nodes = [n for n in _ast.walk(fn)]
+    if idx >= len(nodes):
+        return None
+    n = nodes[idx]
+    if kind == "delete":
+        # replace by pass in its parent block
+        for parent in _ast.walk(fn):
+            for fld in ("body", "orelse", "finalbody"):
+                blk = getattr(parent, fld, None)
+                if isinstance(blk, list) and n in blk:
+                    blk[blk.index(n)] = _ast.Pass()
+                    _ast.fix_missing_locations(tree)
+                    return _ast.unparse(tree) + "\n"
+        return None
+    if kind == "negate":
+        n.test = _ast.UnaryOp(op=_ast.Not(), operand=n.test)
+    elif kind == "cmp":
+        n.ops = [_CMP_SWAP[type(n.ops[0])]()]
+    elif kind == "const":
+        n.value = n.value + 1 if n.value != 1 else 0
+    elif kind == "addsub":
+        n.op = _ast.Sub() if isinstance(n.op, _ast.Add) else _ast.Add()
+    _ast.fix_missing_locations(tree)
+    return _ast.unparse(tree) + "\n"
+
+
+def _adequacy_one(args):
+    modname, name, rel, defpath, idx, kind, sources, base = args
+    import importlib
+
+    mod = importlib.import_module(modname)
+    try:
+        new = _apply_generic(sources[rel], defpath, idx, kind)
+        if new is None:
+            return (name, "n/a")
+        s2 = dict(sources)
+        s2[rel] = new
+        viol, n_ob = _violations(mod, s2)
+    except AnalysisError:
+        return (name, "undecided")
+    except Exception:
+        return (name, "error")
+    new_v = [v for v in viol if (v[0], v[1], v[2]) not in base]
+    return (name, "killed" if new_v else "survived")
+
+
+def mutation_adequacy(mod, prog: Program, rep: engine.Reporter, seed: int, cap: int = 240) -> Dict:
+    funcs = {}
+    for o in rep.obligations:
+        if o.func:
+            for fi in prog.functions.values():
+                if fi.short == o.func and fi.parent is None:
+                    funcs[fi.qualname] = fi
+    muts = list(_generic_mutants(prog, list(funcs.values())))
+    rng = _random.Random(seed)
+    rng.shuffle(muts)
+    muts = muts[:cap]
+    base = {(o.rule, o.func, o.key) for o in rep.obligations if not o.ok}
+    jobs = [(mod.__name__, name, rel, dp, idx, kind, prog.sources, base) for (name, rel, dp, idx, kind) in muts]
+    with cf.ProcessPoolExecutor(max_workers=min(16, os.cpu_count() or 1)) as ex:
+        outs = list(ex.map(_adequacy_one, jobs, chunksize=4))
+    counts: Dict[str, int] = {}
+    for (_, st) in outs:
+        counts[st] = counts.get(st, 0) + 1
+    survived = [n for (n, st) in outs if st == "survived"]
+    return {
+        "note": "generic AST mutants (statement deletion, if-negation, comparison swap, constant perturbation, +/- swap) of the functions the rules anchor in; many are behaviour-preserving or outside this property, so the ratio is an indicator of rule sensitivity, not a verdict",
+        "functions": sorted(f.short for f in funcs.values()),
+        "mutants": len(outs),
+        "killed": counts.get("killed", 0),
+        "undecided": counts.get("undecided", 0),
+        "survived": counts.get("survived", 0),
+        "errors": counts.get("error", 0),
+        "survivors_sample": survived[:25],
+    }
